@@ -34,8 +34,10 @@ def defn_sets(rxns, species, kind):
     return [S for S in good if not any(T < S for T in good)]
 
 
-def check_network(tw, rxns, fails, tags, rng):
+def check_network(tw, rxns, fails, tags, rng, extra=()):
     H = gen.build_crn(rxns)
+    for x in extra:          # species registered in the network that take part in no reaction (isolated places)
+        H.species.add(x)
     species = sorted(H.species)
     nontrivial = 0
     viol = []
@@ -55,7 +57,9 @@ def check_network(tw, rxns, fails, tags, rng):
             nontrivial = 1
         if got != want:
             fails.append({"function": "find_%ss" % kind, "violations": ["reported %s != minimal %ss by definition %s" % (got, kind, want)],
-                          "rxns": rxns, "tags": tags})
+                          "rxns": rxns, "extra": list(extra), "tags": tags})
+    if extra:
+        return nontrivial
     # Petri net primitives and realizability
     verts, edges, flow = hypergraph_to_pr_inputs(H, flow={eid: rng.randint(0, 2) for eid in H.edges})
     pr = PathwayRealizability().load_hypergraph_and_flow(verts, edges, flow).build_petri_net_from_flow()
@@ -194,6 +198,13 @@ def run(tw, tier, seed, only=None):
         nontriv += check_network(tw, rxns, fails, {"kind": "exhaustive"}, rng)
         if len(fails) > 20:
             break
+    # isolated species (registered, in no reaction) and open reactions (empty side): both are siphons / traps in their own right
+    open_nets = [[({"A": 1}, {"B": 1}), ({"B": 1}, {"A": 1})], [({}, {"A": 1}), ({"A": 1}, {"B": 1}), ({"B": 1}, {})], [({"A": 1}, {"B": 1})],
+                 [({"A": 1, "B": 1}, {"C": 1})], [({}, {"A": 1})], [({"A": 1}, {})], [({"A": 2}, {"B": 1}), ({"B": 1}, {"C": 1})]]
+    for rxns in open_nets + [gen.random_network(rng, 4, 3, 2) for _ in range(10 if tier == "quick" else 100)]:
+        for extra in (("X",), ("X", "Y"), ()):
+            cases += 1
+            nontriv += check_network(tw, rxns, fails, {"kind": "isolated/open"}, rng, extra=extra)
     ex = cases
     for _ in range(40 if tier == "quick" else 600):
         rxns = gen.random_network(rng, 5, 5, 2)
@@ -213,5 +224,5 @@ def run(tw, tier, seed, only=None):
 
 def replay(tw, desc):
     fails = []
-    check_network(tw, [tuple(x) for x in desc["rxns"]], fails, {}, random.Random(0))
+    check_network(tw, [tuple(x) for x in desc["rxns"]], fails, {}, random.Random(0), extra=tuple(desc.get("extra", ())))
     return {"rxns": desc["rxns"], "violations": [v for f in fails for v in f["violations"]]}
